@@ -14,6 +14,8 @@ from vmc import common, explorer, observe, refsem, sqlgen
 from vmc.common import HarnessError, Report, pmap
 
 QUICK_DIALECTS = ["ansi", "tsql", "sparksql", "postgres", "mysql", "bigquery", "snowflake"]
+PATH_DIALECTS = ["postgres", "duckdb", "redshift", "greenplum", "snowflake", "sparksql", "hive", "databricks"]
+FILES_IN_FROM = {"sparksql", "databricks"}
 SELECT_INTO_OK = {"tsql", "postgres", "redshift", "greenplum", "materialize", "duckdb"}
 
 
@@ -48,6 +50,15 @@ def enumerate_plan(plan, depth=2):
             if sql not in seen or (name == "simple" and seen[sql][3] != "simple"):
                 seen[sql] = (st, trace, ndev, name)
     return sorted(seen.items(), key=lambda kv: (kv[1][3] != "simple", kv[1][2], len(kv[0]), kv[0])), n_exec
+
+
+def has_path(st):
+    """the statement reads or writes a file path (the part of the space drawn from sqlgen.PATH_PROFILE)"""
+    if st["kind"] in ("insert_dir", "copy_from", "copy_to"):
+        return True
+    found = []
+    sqlgen.walk_rels(st, lambda r: found.append(1) if r["k"] == "path" else None)
+    return bool(found)
 
 
 def _eval(task):
@@ -105,6 +116,21 @@ def run(tier: str, opts: dict) -> int:
             if tier != "quick" and ndev >= 3 and d not in QUICK_DIALECTS and "dialects" not in opts:
                 continue  # thorough: the outermost ball under the 7 grammar families, the D<=2 ball under all 28 dialects
             tasks.append((st, d))
+    # file paths (COPY in both directions, INSERT OVERWRITE DIRECTORY, files in FROM): a second ball around a path-bearing centre,
+    # under the dialects whose grammar has these forms (thorough: all dialects; sqlfluff's acceptance decides the domain)
+    pcases, pn = enumerate_cases(sqlgen.PATH_PROFILE, int(opts.get("Dp", D)), depth)
+    pcases = [c for c in pcases if has_path(c[1][0])]
+    n_exec += pn
+    path_ids = set()
+    for sql, (st, trace, ndev) in pcases:
+        path_ids.add(id(st))
+        rels = []
+        sqlgen.walk_rels(st, lambda r: rels.append(r["k"]))
+        for d in PATH_DIALECTS if (tier == "quick" or ndev >= 3) else dialects:
+            if "path" in rels and d not in FILES_IN_FROM:
+                continue  # fmt.`path` in FROM denotes a file only in the spark family; elsewhere the same text is a table named that way
+            tasks.append((st, d))
+    cases = cases + pcases
     res = pmap(_eval, tasks, chunk=16)
     regen = opts.get("regen_pins")
     ansi_res = {id(st): r for (st, d), r in zip(tasks, res) if d == "ansi" and not r.get("skip")}
@@ -114,16 +140,19 @@ def run(tier: str, opts: dict) -> int:
     per_kind = {}
     nontrivial = set()
     skipped = 0
+    path_accepted = {}
     for (st, d), r in zip(tasks, res):
         pd = per_dialect.setdefault(d, {"accepted": 0, "rejected": 0, "disagree": 0})
         if r.get("skip"):
             pd["rejected"] += 1
             skipped += 1
-            if d == "ansi":
+            if d == "ansi" and id(st) not in path_ids:
                 raise HarnessError(f"generated statement rejected by ansi: {r['sql']}")
             continue
         pd["accepted"] += 1
         per_kind[st["kind"]] = per_kind.get(st["kind"], 0) + 1
+        if id(st) in path_ids:
+            path_accepted[st["kind"]] = path_accepted.get(st["kind"], 0) + 1
         src, _ = refsem.tables(st)
         if len(src) >= 2 or any(x in sqlgen.features(st) for x in ("rel:derived", "rel:cte", "setop")):
             nontrivial.add(r["sql"])
@@ -150,6 +179,9 @@ def run(tier: str, opts: dict) -> int:
             rep.known_finding(fid)
         else:
             rep.violation(r["bad"], {"dialect": d, "sql": r["sql"], "ast": st}, {k: r[k] for k in ("obs", "expected", "delta") if k in r})
+    for kind in ("insert_dir", "copy_from", "copy_to", "insert", "bare"):
+        if not path_accepted.get(kind):
+            raise HarnessError(f"vacuous: no dialect accepted any path-bearing statement of kind {kind}")
     if regen:
         return _write_pins("C01", new_pins, unclassified, replace=(tier == "thorough"))
     for sql, (st, trace, ndev) in cases[:: max(1, len(cases) // 5)][:5]:
@@ -166,6 +198,9 @@ def run(tier: str, opts: dict) -> int:
         bound_completed={"deviations": D, "depth": depth, "dialects": dialects},
         per_dialect=per_dialect,
         per_statement_kind=per_kind,
+        path_statements={"distinct": len(pcases), "accepted_evaluations_per_kind": path_accepted,
+                         "rule": "second ball around INSERT OVERWRITE DIRECTORY '<p>' SELECT c1 FROM parquet.`<p>`: COPY t FROM / COPY t TO / COPY (query) TO / "
+                                 "INSERT OVERWRITE [LOCAL] DIRECTORY / files in any FROM slot, same deviation bound"},
         rejected_by_dialect=skipped,
     )
     rep.assumptions += [
